@@ -241,6 +241,45 @@ def run(ctx):
              "the output must receive the popped node exactly when it is a symbol that is a state or input: `%s`" % shown, sample=shown)
     ret = peel(stmts_of(f["body"])[-1])
     ctx.inst("R17.3", "impl:returns-out", is_local(ret, out_id), f["span"], "the function must return the collected list")
+    lookups(ctx)
+
+
+def lookups(ctx):
+    """R17.4: the two look-up structures the traversal trusts hold every state / every input of the system"""
+    from .. import iterdesc
+    ctx.rule("R17.4", "TransitionSystem::state_map maps the symbol of every state (none filtered out) to that state; input_set holds every input")
+    TS = "patronus::system::transition_system::TransitionSystem::"
+    for name, want in (("state_map", ("tuple", ("field", ("elem", "self.states"), "symbol"), ("elem", "self.states"))), ("input_set", ("elem", "self.inputs"))):
+        g = ctx.fn("patronus", TS + name)
+        gix = Index(g["body"])
+        D = iterdesc.Desc(gix, local_defs(g))
+        val = psanorm.tail_value(stmts_of(g["body"])[-1]) if stmts_of(g["body"]) else {}
+        val = psanorm.value_source(gix, local_defs(g), val)
+        src = None
+        if val.get("k") == "call" and (callee(val) or "").endswith("from_iter") and len(val["args"]) == 1:
+            src = val["args"][0]
+        elif val.get("k") == "mcall" and val["name"] == "collect":
+            src = val["recv"]
+        if src is None:
+            # built by a loop: `let mut m = ..; for s in self.states.iter() { m.insert(s.symbol, s); }`
+            ins = [x for x in gix.nodes if x.get("k") == "mcall" and x["name"] == "insert" and is_local(x["recv"], local_id(val) if val.get("k") == "local" else -1)]
+            lp = gix.enclosing(ins[0], ("for",)) if len(ins) == 1 else None
+            ok = False
+            got = None
+            if lp is not None and len(gix.regions[id(ins[0])]) == len(gix.regions[id(lp)]) + 1 and not any(x.get("k") in ("continue", "break", "return") for x in walk(lp["body"])):
+                alts, filtered = D.source(lp["iter"])
+                env = {}
+                if len(alts) == 1:
+                    D.bind(lp["pat"], alts[0], env)
+                    got = ("tuple",) + tuple(D.of(a_, env) for a_ in ins[0]["args"]) if len(ins[0]["args"]) == 2 else D.of(ins[0]["args"][0], env)
+                    ok = not filtered and got == want
+            ctx.inst("R17.4", "lookup:%s" % name, ok, g["span"], "%s must hold every element of the system's list (found %s): the traversal takes a state that is missing here for a non-state and never follows or reports it" % (name, got))
+            continue
+        alts, filtered = D.source(src)
+        ok = len(alts) == 1 and alts[0] == want and not filtered
+        ctx.inst("R17.4", "lookup:%s" % name, ok, g["span"],
+                 "%s must hold every element of the system's list, unfiltered (found %s%s): the traversal takes a state that is missing here for a non-state and never follows or reports it" % (name, alts, ", filtered" if filtered else ""),
+                 sample={"elements": str(alts), "filtered": filtered})
 
 
 def out_formula(c, defs, P, pid, states_id, inputs_id):
